@@ -44,6 +44,25 @@ def body(run):
                     if not (same or (math.isnan(float(a[k])) and math.isnan(float(b[k])))):
                         run.add_violation('parameter statistics depend on the thread count', desc, observed=dict(multi=a, single=b),
                                           signature=dict(kind='param-threads'))
+        # a second call on the same open object (made inside param_case with another thread count) reports the same statistics
+        if len(res['again']) != len(res['obs']):
+            run.add_violation('parameter statistics of a second call on the same object differ', desc, observed=dict(first=len(res['obs']), second=len(res['again'])),
+                              signature=dict(kind='param-repeat'))
+        else:
+            import math
+            for a, b in zip(res['again'], res['obs']):
+                for k in b:
+                    if isinstance(b[k], str):
+                        continue
+                    if k == 'std':
+                        scale = 1 + float(b['mean']) ** 2 + float(b['std']) ** 2
+                        same = abs(float(a.get(k, math.nan)) ** 2 - float(b[k]) ** 2) <= 1e-11 * scale
+                    else:
+                        same = abs(float(a.get(k, math.nan)) - float(b[k])) <= 1e-12 * (1 + abs(float(b[k])))
+                    if not (same or (math.isnan(float(a.get(k, math.nan))) and math.isnan(float(b[k])))):
+                        run.add_violation('parameter statistics of a second call on the same object differ', desc, observed=dict(second=a, first=b),
+                                          signature=dict(kind='param-repeat'))
+                        break
         cases.append(st.encode_param(res))
         metas.append(desc)
     for k in range(run.scale(30, 600)):
